@@ -11,7 +11,7 @@ import (
 // diff. Comments and strings are preserved byte-for-byte.
 //
 // Rules:
-//  1. Line endings are normalized to LF.
+//  1. Line endings (CRLF) are normalized to LF; a lone CR is blank space.
 //  2. Trailing whitespace is stripped from every line.
 //  3. Indentation is exactly 2 spaces per bracket depth ({, [, ( open; ), ], }
 //     close). A line whose first character is a closer indents at depth-1.
@@ -29,7 +29,9 @@ func CanonicalizeSource(source string) string {
 		source = strings.TrimPrefix(rest, "\ufeff")
 	}
 	source = strings.ReplaceAll(source, "\r\n", "\n")
-	source = strings.ReplaceAll(source, "\r", "\n")
+	// A lone CR is blank space to the lexer, not a line break: turning it
+	// into a newline would split a statement in two and change the program.
+	source = strings.ReplaceAll(source, "\r", " ")
 
 	lines := strings.Split(source, "\n")
 	var out []string
